@@ -84,3 +84,14 @@ Theorem C05_optimize_covers_every_list :
         "self.update_wildcard_children_shortcut()"; "self.needs_optimization = false"]%string = true.
 Proof. exact optimize_shape. Qed.
 Print Assumptions C05_optimize_covers_every_list.
+
+(* ---- the two shortcut flags, REGENERATED from src/node/optimize.rs on this run (Gen/Shortcuts.v: each
+        update_*_children_shortcut as checks `list.iter().all(|child| d1 || d2 || ..)` joined by `&&`): compiled and read
+        over the model's nodes, they ARE the conditions Model/Ops.v optimize stores in the flags - on every node ---- *)
+From WF Require Import Model.Ops Gen.Shortcuts Proofs.ShortcutsP.
+Theorem C05_regenerated_shortcut_flags_are_the_model_conditions :
+  exists cd cw,
+    compiled_flag "dynamic_children_shortcut" = Some cd /\ compiled_flag "wildcard_children_shortcut" = Some cw
+    /\ forall n, sem_flag cd n = dyn_cond n /\ sem_flag cw n = wild_cond n.
+Proof. exact regenerated_shortcuts_are_the_model_conditions. Qed.
+Print Assumptions C05_regenerated_shortcut_flags_are_the_model_conditions.
